@@ -115,6 +115,30 @@ def events(seed, ncfg, nper):
             for i in range(len(x)):
                 ev.append({"kind": "power", "x": bits(x[i]), "u": bits(min(u[i], 1.0)), "p": bits(p), "lo": bits(lo), "hi": bits(hi),
                            "_m": dict(meta0, u=float(u[i]), x=float(x[i]))})
+    # the same call with every registered plot requested (non-interactive backend): the plot functions are handed the very array the
+    # caller receives - which must still be, element by element, the image of its uniform number
+    from nssverif import plots
+    for p, lo, hi in ((2.0, 6.0, 12.0), (1.0, 7.0, 9.0), (3.3, 6.5, 11.0)):
+        c = make_config({})
+        c.simulation.spectrum = Simulation.PowerSpectrum(index=p, lower_bound=lo, upper_bound=hi)
+        sp = Spectra(c)
+        script = rng.random(40)
+        meta0 = {"index": p, "lo": lo, "hi": hi, "plots_requested": True}
+        try:
+            with rngmod.Scripted(script) as sc:
+                x, norm, wsum = plots.call(sp, len(script), plot=True)
+            x = np.atleast_1d(np.asarray(x, dtype=float))
+            u = np.concatenate([np.ravel(v) for v in sc.served]) if sc.served else np.array([])
+        except Exception as ex:
+            ev.append({"kind": "call", "n": len(script), "len": -1, "norm": bits(float("nan")), "wsum": bits(float("nan")), "spec": "power",
+                       "p": bits(p), "lo": bits(lo), "hi": bits(hi), "_m": dict(meta0, error=repr(ex)[:200])})
+            continue
+        ev.append({"kind": "call", "n": len(script), "len": int(len(x)), "norm": bits(norm), "wsum": bits(wsum), "spec": "power",
+                   "p": bits(p), "lo": bits(lo), "hi": bits(hi), "_m": dict(meta0, norm=float(norm), wsum=float(wsum))})
+        if len(u) == len(x):
+            for i in range(len(x)):
+                ev.append({"kind": "power", "x": bits(x[i]), "u": bits(min(u[i], 1.0)), "p": bits(p), "lo": bits(lo), "hi": bits(hi),
+                           "_m": dict(meta0, u=float(u[i]), x=float(x[i]))})
     for le in (6.0, 8.0, 9.3, 12.0, float(rng.uniform(6, 12))):
         c = make_config({})
         c.simulation.spectrum = Simulation.MonoSpectrum(log_nu_energy=le)
